@@ -399,9 +399,32 @@ static void run_fork_two_flavors(void)
 	int i;
 	const char *who;
 
+	int only_second = (int)vrt_param("only_second", 0);
+
 	rcu_register_thread();
 	urcu_bp_read_lock();
 	urcu_bp_read_unlock();
+	if (only_second) {
+		/* the first AUTO_RESIZE table of the process lived under the OTHER flavor and is gone again; from here on the application
+		 * uses (and calls the fork handlers of) the build's flavor only: they must cover the shared resize worker all the same */
+		t2 = cds_lfht_new_flavor(1, 1, 8, CDS_LFHT_AUTO_RESIZE, &urcu_bp_flavor, NULL);
+		VRT_CHECK(t2 && cds_lfht_destroy(t2, NULL) == 0, "creating / destroying the bp table failed");
+		while (!vrt_is_freed(t2))
+			vrt_yield();
+		t2 = NULL;
+		t1 = cds_lfht_new_flavor(1, 1, 8, CDS_LFHT_AUTO_RESIZE, &urcu_memb_flavor, NULL);
+		VRT_CHECK(t1 != NULL, "cds_lfht_new_flavor failed");
+		urcu_memb_call_rcu_before_fork();
+		urcu_bp_before_fork();
+		pid = fork();
+		if (pid == 0) {
+			urcu_bp_after_fork_child();
+			urcu_memb_call_rcu_after_fork_child();
+		} else {
+			urcu_bp_after_fork_parent();
+			urcu_memb_call_rcu_after_fork_parent();
+		}
+	} else {
 	t1 = cds_lfht_new_flavor(1, 1, 8, CDS_LFHT_AUTO_RESIZE, &urcu_memb_flavor, NULL);
 	t2 = cds_lfht_new_flavor(1, 1, 8, CDS_LFHT_AUTO_RESIZE, &urcu_bp_flavor, NULL);
 	VRT_CHECK(t1 && t2, "cds_lfht_new_flavor failed");
@@ -418,6 +441,7 @@ static void run_fork_two_flavors(void)
 		urcu_bp_call_rcu_after_fork_parent();
 		urcu_memb_call_rcu_after_fork_parent();
 	}
+	}
 	who = pid == 0 ? "child" : "parent";
 	for (i = 0; i < 4; i++) {	/* hashes 1,3,5,7: the fourth queues a lazy grow on the shared worker */
 		cds_lfht_node_init(&n1[i]);
@@ -425,9 +449,11 @@ static void run_fork_two_flavors(void)
 		urcu_memb_read_lock();
 		cds_lfht_add(t1, (unsigned long)(2 * i + 1), &n1[i]);
 		urcu_memb_read_unlock();
-		urcu_bp_read_lock();
-		cds_lfht_add(t2, (unsigned long)(2 * i + 1), &n2[i]);
-		urcu_bp_read_unlock();
+		if (t2) {
+			urcu_bp_read_lock();
+			cds_lfht_add(t2, (unsigned long)(2 * i + 1), &n2[i]);
+			urcu_bp_read_unlock();
+		}
 	}
 	urcu_memb_synchronize_rcu();
 	urcu_bp_synchronize_rcu();
@@ -435,12 +461,14 @@ static void run_fork_two_flavors(void)
 	for (i = 0; i < 4; i++)
 		VRT_CHECK(cds_lfht_del(t1, &n1[i]) == 0, "%s: del (memb table) failed", who);
 	urcu_memb_read_unlock();
-	urcu_bp_read_lock();
-	for (i = 0; i < 4; i++)
-		VRT_CHECK(cds_lfht_del(t2, &n2[i]) == 0, "%s: del (bp table) failed", who);
-	urcu_bp_read_unlock();
-	VRT_CHECK(cds_lfht_destroy(t1, NULL) == 0 && cds_lfht_destroy(t2, NULL) == 0, "%s: destroy failed", who);
-	while (!vrt_is_freed(t1) || !vrt_is_freed(t2))
+	if (t2) {
+		urcu_bp_read_lock();
+		for (i = 0; i < 4; i++)
+			VRT_CHECK(cds_lfht_del(t2, &n2[i]) == 0, "%s: del (bp table) failed", who);
+		urcu_bp_read_unlock();
+	}
+	VRT_CHECK(cds_lfht_destroy(t1, NULL) == 0 && (!t2 || cds_lfht_destroy(t2, NULL) == 0), "%s: destroy failed", who);
+	while (!vrt_is_freed(t1) || (t2 && !vrt_is_freed(t2)))
 		vrt_yield();
 	rcu_unregister_thread();
 }
